@@ -194,6 +194,108 @@ def item_txt(it):
     return s.strip()
 
 
+# ---------------------------------------------------------------- attribute tokens (what is inside `#[ ... ]`)
+def path_tk(p):
+    lead, segs = p
+    out = ['::'] if lead else []
+    for i, sg in enumerate(segs):
+        if i:
+            out.append('::')
+        out.append(sg)
+    return out
+
+
+def commas(lists, trailing=False):
+    out = []
+    for i, l in enumerate(lists):
+        if i:
+            out.append(',')
+        out.extend(l)
+    if trailing and lists:
+        out.append(',')
+    return out
+
+
+def expr_tk(e):
+    if e[0] == 'EStr':
+        return [e[1]]
+    if e[0] == 'EPath':
+        return path_tk(e[1])
+    return list(e[1])
+
+
+def meta2_tk(m):
+    if m[0] == 'P':
+        return path_tk(m[1])
+    if m[0] == 'NV':
+        return path_tk(m[1]) + ['='] + expr_tk(m[2])
+    return path_tk(m[1]) + ['('] + list(m[2]) + [')']
+
+
+def meta1_tk(m):
+    if m[0] == 'P':
+        return path_tk(m[1])
+    if m[0] == 'NV':
+        return path_tk(m[1]) + ['='] + expr_tk(m[2])
+    if m[0] == 'L':
+        if m[2] is None:
+            return path_tk(m[1]) + ['('] + list(m[3]) + [')']
+        return path_tk(m[1]) + ['('] + commas([meta2_tk(x) for x in m[2]]) + [')']
+    return list(m[1])
+
+
+def dw_attr_tk(a):
+    if a[0] == 'NotList':
+        return ['derive_where'] + list(a[1])
+    _, elems, semi, style = a
+    inner = commas([meta1_tk(m) for m in elems], style.get('tc_elems'))
+    if semi is not None:
+        inner += [';'] + commas([list(g[1]) for g in semi], style.get('tc_generics'))
+    return ['derive_where', '('] + inner + [')']
+
+
+def sub_attr_tk(a):
+    if a[0] == 'NotList':
+        return ['derive_where'] + list(a[1])
+    _, args, raw = a
+    if args is None:
+        return ['derive_where', '('] + list(raw) + [')']
+    return ['derive_where', '('] + commas([meta1_tk(m) for m in args]) + [')']
+
+
+def item_attr_tk(a):
+    if a[0] == 'Dw':
+        return dw_attr_tk(a[1])
+    if a[0] == 'Repr':
+        r = a[1]
+        if r[0] == 'Idents':
+            return ['repr', '('] + commas([[i] for i in r[1]]) + [')']
+        if r[0] == 'Unparsable':
+            return ['repr', '('] + list(r[1]) + [')']
+        return ['repr']
+    return path_tk(a[1]) + list(a[2])
+
+
+def field_attr_tk(a):
+    if a[0] == 'Dw':
+        return sub_attr_tk(a[1])
+    return path_tk(a[1]) + list(a[2])
+
+
+def sx_item_src(it):
+    k = it['kind']
+    attrs = sx_list(sx_toks(item_attr_tk(a)) for a in it['attrs'])
+
+    def fsrc(fs):
+        return sx_list(sx_list(sx_toks(field_attr_tk(a)) for a in f['attrs']) for f in fs)
+    if k[0] == 'Struct':
+        return '(' + attrs + ' ' + fsrc(k[2]) + ' ())'
+    if k[0] == 'Union':
+        return '(' + attrs + ' ' + fsrc(k[1]) + ' ())'
+    vs = sx_list('(' + sx_list(sx_toks(field_attr_tk(a)) for a in v['attrs']) + ' ' + fsrc(v['fields']) + ')' for v in k[1])
+    return '(' + attrs + ' () ' + vs + ')'
+
+
 # ---------------------------------------------------------------- s-expression
 def q(s):
     return '"' + s.replace('\\', '\\\\').replace('"', '\\"') + '"'
@@ -338,7 +440,7 @@ def sx_cfg(name):
 
 
 def sx_case(cid, cfg, it):
-    return '(case ' + q(cid) + ' ' + sx_cfg(cfg) + ' ' + sx_item(it) + ')'
+    return '(case ' + q(cid) + ' ' + sx_cfg(cfg) + ' ' + sx_item(it) + ' ' + sx_item_src(it) + ')'
 
 
 # ---------------------------------------------------------------- builders
